@@ -2,6 +2,8 @@
 
 package sarama
 
+import "sync"
+
 // In-package access for the C16 correspondence harness (added by -overlay; nothing is written to the repository).
 
 // VerifC16Set wraps a real produceSet whose parent carries only a configuration and an idle transaction manager.
@@ -77,4 +79,64 @@ func VerifC16WireLength(req *ProduceRequest, clientID string) (length int, lenEr
 	length = pe.length
 	buf, err := encode(r, nil)
 	return length, lenErr, len(buf), err
+}
+
+// VerifC16GatedProduce answers produce requests like MockProduceResponse (with a fixed error for one partition), but
+// holds the answer to the very first request until Open is called (a slow broker).
+type VerifC16GatedProduce struct {
+	inner *MockProduceResponse
+	gate  chan struct{}
+	once  sync.Once
+	mu    sync.Mutex
+	seen  int
+}
+
+func VerifC16NewGatedProduce(t TestReporter, version int16, errTopic string, errPartition int32, kerr KError) *VerifC16GatedProduce {
+	return &VerifC16GatedProduce{
+		inner: NewMockProduceResponse(t).SetVersion(version).SetError(errTopic, errPartition, kerr),
+		gate:  make(chan struct{}),
+	}
+}
+
+func (m *VerifC16GatedProduce) Open() { m.once.Do(func() { close(m.gate) }) }
+
+// Seen is the number of produce requests received so far.
+func (m *VerifC16GatedProduce) Seen() int {
+	m.mu.Lock()
+	defer m.mu.Unlock()
+	return m.seen
+}
+
+func (m *VerifC16GatedProduce) For(reqBody versionedDecoder) encoderWithHeader {
+	m.mu.Lock()
+	m.seen++
+	first := m.seen == 1
+	m.mu.Unlock()
+	if first {
+		<-m.gate
+	}
+	return m.inner.For(reqBody)
+}
+
+// VerifC16SwapMetadata is a metadata responder whose answer can be swapped while the broker is running.
+type VerifC16SwapMetadata struct {
+	mu  sync.Mutex
+	cur *MockMetadataResponse
+}
+
+func VerifC16NewSwapMetadata(r *MockMetadataResponse) *VerifC16SwapMetadata {
+	return &VerifC16SwapMetadata{cur: r}
+}
+
+func (m *VerifC16SwapMetadata) Set(r *MockMetadataResponse) {
+	m.mu.Lock()
+	m.cur = r
+	m.mu.Unlock()
+}
+
+func (m *VerifC16SwapMetadata) For(reqBody versionedDecoder) encoderWithHeader {
+	m.mu.Lock()
+	cur := m.cur
+	m.mu.Unlock()
+	return cur.For(reqBody)
 }
